@@ -52,10 +52,12 @@ NONE == 0  W == 1  R == 2  RU == 4  AR == 8  UREQ == 16  UWAIT == 32  ULOSER == 
     A12r: going[nx] := 1; goto Fin;
     \* ------------------------------------------------------------ try_acquire
     T0: if (tailp # 0 \/ tailf # 0) { res[self] := "fail"; goto Fin2 }       \* q_tail.load
-        else { st[self] := IF op = "tryW" THEN W ELSE AR; goto T1 };
-    T1: if (tailp = 0 /\ tailf = 0) { tailp := self; tailf := 0; res[self] := "ok";
+        else { goto T1 };
+    \* the node fields are initialised (5 relaxed stores) and then the CAS on q_tail is attempted; on failure the fields keep the values just stored
+    T1: st[self] := IF op = "tryW" THEN W ELSE AR;
+        if (tailp = 0 /\ tailf = 0) { tailp := self; tailf := 0; res[self] := "ok";
               if (op = "tryW") { wr := wr \cup {self} } else { rd := rd \cup {self} }; goto Fin }
-        else { res[self] := "fail"; st[self] := NONE; goto Fin2 };
+        else { res[self] := "fail"; goto Fin2 };
     \* ------------------------------------------------------------ release
     R0: old := st[self];                                                     \* my_state.load
         if (old = W) { wr := wr \ {self}; goto Rw1 } else { rd := rd \ {self}; tmpf := 0; goto Rr1 };
@@ -433,16 +435,15 @@ T0(self) == /\ pc[self] = "T0"
             /\ IF tailp # 0 \/ tailf # 0
                   THEN /\ res' = [res EXCEPT ![self] = "fail"]
                        /\ pc' = [pc EXCEPT ![self] = "Fin2"]
-                       /\ st' = st
-                  ELSE /\ st' = [st EXCEPT ![self] = IF op[self] = "tryW" THEN W ELSE AR]
-                       /\ pc' = [pc EXCEPT ![self] = "T1"]
+                  ELSE /\ pc' = [pc EXCEPT ![self] = "T1"]
                        /\ res' = res
-            /\ UNCHANGED << tailp, tailf, prevp, prevf, nextp, nextf, going, 
-                            il, wr, rd, entry, granted, wepoch, ustart, 
+            /\ UNCHANGED << tailp, tailf, prevp, prevf, nextp, nextf, st, 
+                            going, il, wr, rd, entry, granted, wepoch, ustart, 
                             fifoBad, upBad, i, op, pred, predf, ps, old, nx, 
                             tmpf, tp, succ, nst >>
 
 T1(self) == /\ pc[self] = "T1"
+            /\ st' = [st EXCEPT ![self] = IF op[self] = "tryW" THEN W ELSE AR]
             /\ IF tailp = 0 /\ tailf = 0
                   THEN /\ tailp' = self
                        /\ tailf' = 0
@@ -453,9 +454,7 @@ T1(self) == /\ pc[self] = "T1"
                              ELSE /\ rd' = (rd \cup {self})
                                   /\ wr' = wr
                        /\ pc' = [pc EXCEPT ![self] = "Fin"]
-                       /\ st' = st
                   ELSE /\ res' = [res EXCEPT ![self] = "fail"]
-                       /\ st' = [st EXCEPT ![self] = NONE]
                        /\ pc' = [pc EXCEPT ![self] = "Fin2"]
                        /\ UNCHANGED << tailp, tailf, wr, rd >>
             /\ UNCHANGED << prevp, prevf, nextp, nextf, going, il, entry, 
